@@ -340,7 +340,7 @@ func c17RunCaseHTTP(id int, cs c17Case, emit func(any)) error {
 		}
 		commenter = gl
 	} else {
-		gh, err := reporter.NewGithubReporter(context.Background(), "v0", ts.URL, ts.URL, 10*time.Second, "token", "o", "r", 7, cs.Max, "head", false)
+		gh, err := reporter.NewGithubReporter(context.Background(), "v0", ts.URL, ts.URL, 10*time.Second, "token", "o", "r", 7, cs.Max, "head", cs.Showdup)
 		if err != nil {
 			return err
 		}
@@ -367,7 +367,7 @@ func c17RunCaseHTTP(id int, cs c17Case, emit func(any)) error {
 		}
 		seeds = append(seeds, seedRec{in.comment(c), at})
 	}
-	emit(map[string]any{"ev": "Case", "id": id, "plat": cs.Plat, "max": cs.Max, "strip": cs.Strip, "pad": cs.Pad, "padf": cs.Padf, "store": seeds})
+	emit(map[string]any{"ev": "Case", "id": id, "plat": cs.Plat, "max": cs.Max, "strip": cs.Strip, "pad": cs.Pad, "padf": cs.Padf, "showdup": cs.Showdup, "store": seeds})
 	for rn, run := range cs.Runs {
 		on := map[string]bool{}
 		for _, p := range run.Reports {
@@ -391,9 +391,9 @@ func c17RunCaseHTTP(id int, cs c17Case, emit func(any)) error {
 		srv.creates, srv.calls, srv.deleted, srv.posts = nil, []c17Call{}, []int{}, nil
 		ngen := len(srv.general)
 		srv.mu.Unlock()
-		pending := reporter.VerifMakeComments(lr.summary, false)
+		pending := reporter.VerifMakeComments(lr.summary, cs.Showdup)
 		errStr := ""
-		if err := reporter.Submit(context.Background(), lr.summary, commenter, false); err != nil {
+		if err := reporter.Submit(context.Background(), lr.summary, commenter, cs.Showdup); err != nil {
 			errStr = err.Error()
 		}
 		srv.mu.Lock()
